@@ -103,6 +103,31 @@ def h_two_errors(ctx, n1, n2):
         ctx.check("second error reports its own sense key", e2.data.get("sense_key", -1) == ctx.oracle(k2))
 
 
+def h_tables(ctx):
+    """finite side obligation: no code is listed twice in the sense-key / ASC-ASCQ dict literals (a later duplicate
+    silently replaces the earlier text), every key is in range"""
+    import ast
+    import os
+    import pyscsi.pyscsi.scsi_sense as S
+    src = open(os.path.splitext(S.__file__)[0] + ".py").read()
+    tree = ast.parse(src)
+    dups, n = [], 0
+    for node in ast.walk(tree):
+        if isinstance(node, ast.Assign) and isinstance(node.value, ast.Dict) and any(
+                isinstance(t, ast.Name) and t.id in ("sense_ascq_dict", "sense_key_dict") for t in node.targets):
+            seen = set()
+            for k in node.value.keys:
+                if isinstance(k, ast.Constant):
+                    n += 1
+                    if k.value in seen:
+                        dups.append(hex(k.value))
+                    seen.add(k.value)
+    ctx.check("table literals found", n > ctx.oracle(100))
+    ctx.check("no code is listed twice in the sense tables (%d entries)" % n, not dups, str(dups))
+    ctx.check("ASC/ASCQ keys are 16-bit, sense keys 4-bit", all(0 <= k <= 0xFFFF for k in S.sense_ascq_dict)
+              and all(0 <= k <= 15 for k in S.sense_key_dict))
+
+
 def obligations(tier):
     from symx.harness import Ob
     obs = []
@@ -113,6 +138,7 @@ def obligations(tier):
                           abstract_dicts=True, split=True, canary=(n >= 14)))
     for fmt in ("fixed", "descriptor"):
         obs.append(Ob("text/%s" % fmt, MOD, "h_text", {"fmt": fmt}, split=True))
+    obs.append(Ob("sense-tables", MOD, "h_tables", {}))
     for n1, n2 in ((18, 18), (18, 8), (8, 18)):
         obs.append(Ob("two-errors/%d,%d" % (n1, n2), MOD, "h_two_errors", {"n1": n1, "n2": n2}, abstract_dicts=True, split=True))
     return obs
